@@ -38,6 +38,7 @@
 #include <Bpp/Numeric/Prob/GaussianDiscreteDistribution.h>
 #include <Bpp/Numeric/Prob/TruncatedExponentialDiscreteDistribution.h>
 #include <Bpp/Numeric/Prob/UniformDiscreteDistribution.h>
+#include <Bpp/Numeric/Constraints.h>
 
 #include <cmath>
 #include <memory>
@@ -723,6 +724,61 @@ static long laws(Rng& rng, const std::vector<uint64_t>& seeds)
         if (!(h1 == "ok" && h2 == "ok" && x1 == 0. && x2 == 0.)) emitPair(0, "f", 4, x1, x2, 0., h1, h2);
       }
     }
+    // draws of restricted distributions: the accepted draw against the raw stream of the unrestricted twin
+    reset();
+    ++sc;
+    for (int rep = 0; rep < 30; ++rep)
+    {
+      static const char* cls[] = {"dd.exp", "dd.texp", "dd.gauss", "dd.gamma", "dd.unif", "dd.beta"};
+      static const double grid[] = {0.1, 0.25, 0.5, 1., 2., 5., 20.};
+      std::string s = cls[rep % 6];
+      double a = grid[rng.below(7)], b = grid[rng.below(7)], sh = shapes[rng.below(4)];
+      double qlo = 0.1 * static_cast<double>(2 + rng.below(4)), qhi = qlo + 0.1 * static_cast<double>(1 + rng.below(3)); // 20%..50% + 10%..30%
+      uint64_t sd2 = sd + static_cast<uint64_t>(rep) * 15485863ULL;
+      std::unique_ptr<bpp::DiscreteDistributionInterface> d, tw;
+      double lo = 0, hi = 0, x = 0;
+      std::vector<double> raw;
+      std::string how = outcome<bpp::Exception>([&]() {
+        auto mk = [&]() -> bpp::DiscreteDistributionInterface* {
+          if (s == "dd.exp") return new bpp::ExponentialDiscreteDistribution(3, a);
+          if (s == "dd.texp") return new bpp::TruncatedExponentialDiscreteDistribution(3, a, 8. / a);
+          if (s == "dd.gauss") return new bpp::GaussianDiscreteDistribution(3, a - 1., b);
+          if (s == "dd.gamma") return new bpp::GammaDiscreteDistribution(3, sh, b, 0.05, 0.05, true, a);
+          if (s == "dd.unif") return new bpp::UniformDiscreteDistribution(3, a - 1., a - 1. + b);
+          return new bpp::BetaDiscreteDistribution(3, sh, std::min(a, 5.));
+        };
+        d.reset(mk());
+        tw.reset(mk());
+        lo = tw->qProb(qlo);
+        hi = s == "dd.texp" ? 8. / a : tw->qProb(qhi); // the truncation point has to stay inside
+        bpp::IntervalConstraint ic(lo, hi, true, true);
+        d->restrictToConstraint(ic);
+      });
+      if (how != "ok" || !(lo < hi)) continue; // restriction refused / degenerate interval: nothing to observe
+      how = outcome<bpp::Exception>([&]() {
+        quietSeed(sd2);
+        for (int k = 0; k < 48; ++k) raw.push_back(tw->randC());
+        quietSeed(sd2);
+        x = d->randC();
+      });
+      if (how != "ok")
+      {
+        tracer().emit(Obj().kv("e", "Restricted").kv("s", s).kv("inDom", Arr().add(true)).kv("idx", 0).kv("dom", false).kv("raised", how));
+        continue;
+      }
+      Arr in;
+      long idx = 0;
+      bool any = false;
+      for (size_t k = 0; k < raw.size(); ++k)
+      {
+        bool inside = raw[k] >= lo && raw[k] <= hi;
+        in.add(inside);
+        any = any || inside;
+        if (idx == 0 && raw[k] == x) idx = static_cast<long>(k) + 1;
+      }
+      if (!any) continue; // the replayed window holds no acceptable draw
+      tracer().emit(Obj().kv("e", "Restricted").kv("s", s).kv("inDom", in).kv("idx", idx).kv("dom", x >= lo && x <= hi).kv("seed", static_cast<long long>(sd2)));
+    }
     // picks by inverse cdf
     reset();
     ++sc;
@@ -849,11 +905,15 @@ static void rankOf(double u, const std::vector<double>& w, long& lo, long& hi)
 
 struct HmmObj
 {
-  std::string kind;
-  size_t ns;
   std::shared_ptr<bpp::AbstractHmmTransitionMatrix> obj, twin;
   bpp::Parametrizable* par(bool t) { return dynamic_cast<bpp::Parametrizable*>(t ? twin.get() : obj.get()); }
 };
+
+static std::shared_ptr<bpp::AbstractHmmTransitionMatrix> freshTm(const std::string& kind, std::shared_ptr<HAlpha> al)
+{
+  if (kind == "full") return std::shared_ptr<bpp::AbstractHmmTransitionMatrix>(new bpp::FullHmmTransitionMatrix(al, ""));
+  return std::shared_ptr<bpp::AbstractHmmTransitionMatrix>(new bpp::AutoCorrelationTransitionMatrix(al, ""));
+}
 
 static long hmmPaths(Rng& rng, long n, const std::vector<uint64_t>& seeds)
 {
@@ -862,112 +922,180 @@ static long hmmPaths(Rng& rng, long n, const std::vector<uint64_t>& seeds)
   {
     reset();
     ++sc;
-    HmmObj h;
-    h.kind = rng.coin() ? "full" : "auto";
-    h.ns = 1 + rng.below(4);
-    auto al = std::make_shared<HAlpha>(h.ns);
-    if (h.kind == "full")
-    {
-      h.obj.reset(new bpp::FullHmmTransitionMatrix(al, ""));
-      h.twin.reset(new bpp::FullHmmTransitionMatrix(al, ""));
-    }
-    else
-    {
-      h.obj.reset(new bpp::AutoCorrelationTransitionMatrix(al, ""));
-      h.twin.reset(new bpp::AutoCorrelationTransitionMatrix(al, ""));
-    }
-    tracer().emit(Obj().kv("e", "New").kv("o", 0).kv("k", h.kind).kv("ns", h.ns));
+    std::string kind = rng.coin() ? "full" : "auto";
+    size_t ns = 1 + rng.below(4);
+    auto al = std::make_shared<HAlpha>(ns);
+    HmmObj slot[2];
+    // a refused setTransitionProbabilities may leave rows half taken over (simplexes and parameter list no longer
+    // agree): such an object is not used as the source of a copy until a later setTransitionProbabilities succeeds
+    bool tainted[2] = {false, false};
+    bool copied = false;
+    auto create = [&](int o) {
+      slot[o].obj = freshTm(kind, al);
+      slot[o].twin = freshTm(kind, al);
+      tracer().emit(Obj().kv("e", "New").kv("o", o).kv("k", kind).kv("ns", ns));
+    };
     uint64_t pool[3] = {seeds[rng.below(seeds.size())], seeds[rng.below(seeds.size())], seeds[rng.below(seeds.size())]};
-    long ops = 4 + static_cast<long>(rng.below(8));
-    for (long o = 0; o < ops; ++o)
-    {
-      size_t what = rng.below(10);
-      if (o == 0 && rng.coin()) what = 9; // a sample as the very first call
-      if (what < 3)
-      { // mutation
-        std::string r, r2, whatS;
-        if (h.kind == "full" && (what < 2 || h.ns == 1))
-        {
-          whatS = "setP";
-          bpp::RowMatrix<double> m(h.ns, h.ns);
-          for (size_t i = 0; i < h.ns; ++i)
-          {
-            // eighths, zero entries with probability 1/3 (never the whole row)
-            std::vector<int> e(h.ns, 0);
-            int left = 8;
-            for (size_t j = 0; j + 1 < h.ns; ++j)
-            {
-              int x = rng.chance(1, 3) ? 0 : static_cast<int>(rng.below(static_cast<size_t>(left) + 1));
-              e[j] = x;
-              left -= x;
-            }
-            e[h.ns - 1] = left;
-            for (size_t j = 0; j < h.ns; ++j) m(i, j) = e[j] / 8.;
-          }
-          auto* f = dynamic_cast<bpp::FullHmmTransitionMatrix*>(h.obj.get());
-          auto* f2 = dynamic_cast<bpp::FullHmmTransitionMatrix*>(h.twin.get());
-          r = outcome<bpp::Exception>([&]() { f->setTransitionProbabilities(m); });
-          r2 = outcome<bpp::Exception>([&]() { f2->setTransitionProbabilities(m); });
-        }
-        else
-        {
-          whatS = "param";
-          std::vector<std::string> names = h.par(false)->getParameters().getParameterNames();
-          if (names.empty()) continue;
-          std::string nm = names[rng.below(names.size())];
-          double v = (1 + static_cast<double>(rng.below(15))) / 16.;
-          r = outcome<bpp::Exception>([&]() { h.par(false)->setParameterValue(nm, v); });
-          r2 = outcome<bpp::Exception>([&]() { h.par(true)->setParameterValue(nm, v); });
-        }
-        tracer().emit(Obj().kv("e", "Mut").kv("o", 0).kv("what", whatS).kv("r", r).kv("twin", r2));
-      }
-      else if (what < 5)
+
+    auto mutate = [&](int o, bool forceSetP) {
+      HmmObj& h = slot[o];
+      std::string r, r2, whatS;
+      if (kind == "full" && (forceSetP || rng.chance(2, 3) || ns == 1))
       {
-        bool eq = what == 3, same = true;
-        std::string r = outcome<bpp::Exception>([&]() {
-          if (eq) same = h.obj->getEquilibriumFrequencies() == h.twin->getEquilibriumFrequencies();
-          else
+        whatS = "setP";
+        bpp::RowMatrix<double> m(ns, ns);
+        for (size_t i = 0; i < ns; ++i)
+        {
+          // eighths; an entry is "almost zero" (1e-9) with probability 1/3.  A true zero has no simplex coordinates:
+          // the call is then refused (possibly half-way, see tainted) - generated only before the first copy
+          std::vector<int> e(ns, 0);
+          int left = 8;
+          for (size_t j = 0; j + 1 < ns; ++j)
           {
-            const bpp::Matrix<double>& a = h.obj->getPij();
-            const bpp::Matrix<double>& b = h.twin->getPij();
-            for (size_t i = 0; i < h.ns; ++i)
-              for (size_t j = 0; j < h.ns; ++j) same = same && a(i, j) == b(i, j);
+            int x = rng.chance(1, 3) ? 0 : static_cast<int>(rng.below(static_cast<size_t>(left) + 1));
+            e[j] = x;
+            left -= x;
           }
-        });
-        tracer().emit(Obj().kv("e", "Get").kv("o", 0).kv("which", eq ? "eq" : "pij").kv("same", r == "ok" && same));
+          e[ns - 1] = left;
+          bool trueZero = !copied && rng.chance(1, 4);
+          size_t big = 0;
+          for (size_t j = 0; j < ns; ++j)
+            if (e[j] > e[big]) big = j;
+          double taken = 0;
+          for (size_t j = 0; j < ns; ++j)
+          {
+            m(i, j) = e[j] / 8.;
+            if (e[j] == 0 && !trueZero)
+            {
+              m(i, j) = 1e-9;
+              taken += 1e-9;
+            }
+          }
+          m(i, big) -= taken;
+        }
+        auto* f = dynamic_cast<bpp::FullHmmTransitionMatrix*>(h.obj.get());
+        auto* f2 = dynamic_cast<bpp::FullHmmTransitionMatrix*>(h.twin.get());
+        r = outcome<bpp::Exception>([&]() { f->setTransitionProbabilities(m); });
+        r2 = outcome<bpp::Exception>([&]() { f2->setTransitionProbabilities(m); });
+        tainted[o] = r != "ok";
       }
       else
       {
-        static const size_t lens[] = {1, 1, 1, 2, 3, 5};
-        size_t len = lens[rng.below(6)];
-        uint64_t sd = pool[rng.below(3)];
-        std::vector<double> us;
-        quietSeed(sd);
-        for (size_t i = 0; i < len; ++i) us.push_back(bpp::RandomTools::giveRandomNumberBetweenZeroAndEntry(1.0));
-        std::vector<size_t> path;
-        quietSeed(sd);
-        std::string r = outcome<bpp::Exception>([&]() { path = h.obj->sample(len); });
-        // the current weights, from the twin
-        std::vector<double> eq = h.twin->getEquilibriumFrequencies();
-        const bpp::Matrix<double>& P = h.twin->getPij();
-        Arr lo, hi, wpos, out;
-        for (size_t t = 0; t < path.size() && t < len; ++t)
-        {
-          std::vector<double> w;
-          if (t == 0) w = eq;
-          else if (path[t - 1] < h.ns) w = P.row(path[t - 1]);
-          long a = -1, b = -1;
-          if (!w.empty()) rankOf(us[t], w, a, b);
-          lo.add(a);
-          hi.add(b);
-          wpos.add(path[t] < w.size() && w[path[t]] > 0.);
-          out.add(enc(path[t]));
-        }
-        Obj e;
-        e.kv("e", "Sample").kv("o", 0).kv("n", len).kv("seed", static_cast<long long>(sd)).kv("out", out).kv("lo", lo).kv("hi", hi).kv("wpos", wpos);
-        if (r != "ok") e.kv("raised", r);
-        tracer().emit(e);
+        whatS = "param";
+        std::vector<std::string> names = h.par(false)->getParameters().getParameterNames();
+        if (names.empty()) return;
+        std::string nm = names[rng.below(names.size())];
+        double v = (1 + static_cast<double>(rng.below(15))) / 16.;
+        r = outcome<bpp::Exception>([&]() { h.par(false)->setParameterValue(nm, v); });
+        r2 = outcome<bpp::Exception>([&]() { h.par(true)->setParameterValue(nm, v); });
       }
+      tracer().emit(Obj().kv("e", "Mut").kv("o", o).kv("what", whatS).kv("r", r).kv("twin", r2));
+    };
+    auto get = [&](int o, bool eq) {
+      HmmObj& h = slot[o];
+      bool same = true;
+      std::string r = outcome<bpp::Exception>([&]() {
+        if (eq)
+        {
+          const std::vector<double>& a = h.obj->getEquilibriumFrequencies();
+          const std::vector<double>& b = h.twin->getEquilibriumFrequencies();
+          for (size_t i = 0; i < ns; ++i) same = same && std::fabs(a[i] - b[i]) <= 1e-12;
+        }
+        else
+        {
+          const bpp::Matrix<double>& a = h.obj->getPij();
+          const bpp::Matrix<double>& b = h.twin->getPij();
+          for (size_t i = 0; i < ns; ++i)
+            for (size_t j = 0; j < ns; ++j) same = same && std::fabs(a(i, j) - b(i, j)) <= 1e-12;
+        }
+      });
+      tracer().emit(Obj().kv("e", "Get").kv("o", o).kv("which", eq ? "eq" : "pij").kv("same", r == "ok" && same));
+    };
+    auto sample = [&](int o, size_t len) {
+      HmmObj& h = slot[o];
+      uint64_t sd = pool[rng.below(3)];
+      std::vector<double> us;
+      quietSeed(sd);
+      for (size_t i = 0; i < len; ++i) us.push_back(bpp::RandomTools::giveRandomNumberBetweenZeroAndEntry(1.0));
+      std::vector<size_t> path;
+      quietSeed(sd);
+      std::string r = outcome<bpp::Exception>([&]() { path = h.obj->sample(len); });
+      // the current weights, from the twin
+      std::vector<double> eq = h.twin->getEquilibriumFrequencies();
+      const bpp::Matrix<double>& P = h.twin->getPij();
+      Arr lo, hi, wpos, out;
+      for (size_t t = 0; t < path.size() && t < len; ++t)
+      {
+        std::vector<double> w;
+        if (t == 0) w = eq;
+        else if (path[t - 1] < ns) w = P.row(path[t - 1]);
+        long a = -1, b = -1;
+        if (!w.empty()) rankOf(us[t], w, a, b);
+        lo.add(a);
+        hi.add(b);
+        wpos.add(path[t] < w.size() && w[path[t]] > 1e-12);
+        out.add(enc(path[t]));
+      }
+      Obj e;
+      e.kv("e", "Sample").kv("o", o).kv("n", len).kv("seed", static_cast<long long>(sd)).kv("out", out).kv("lo", lo).kv("hi", hi).kv("wpos", wpos);
+      if (r != "ok") e.kv("raised", r);
+      tracer().emit(e);
+    };
+    // dst becomes a copy of src (copy construction when dst is empty, else assignment); the twin of dst is a
+    // freshly built object given the parameter values of src
+    auto copyTo = [&](int src, int dst) {
+      if (tainted[src]) return;
+      tainted[dst] = false;
+      copied = true;
+      bool assign = static_cast<bool>(slot[dst].obj);
+      std::string r = outcome<bpp::Exception>([&]() {
+        if (kind == "full")
+        {
+          auto* a = dynamic_cast<bpp::FullHmmTransitionMatrix*>(slot[src].obj.get());
+          if (assign) *dynamic_cast<bpp::FullHmmTransitionMatrix*>(slot[dst].obj.get()) = *a;
+          else slot[dst].obj.reset(new bpp::FullHmmTransitionMatrix(*a));
+        }
+        else
+        {
+          auto* a = dynamic_cast<bpp::AutoCorrelationTransitionMatrix*>(slot[src].obj.get());
+          if (assign) *dynamic_cast<bpp::AutoCorrelationTransitionMatrix*>(slot[dst].obj.get()) = *a;
+          else slot[dst].obj.reset(new bpp::AutoCorrelationTransitionMatrix(*a));
+        }
+        slot[dst].twin = freshTm(kind, al);
+        slot[dst].par(true)->matchParametersValues(slot[src].par(false)->getParameters());
+      });
+      Obj e;
+      e.kv("e", "CopyTo").kv("o", src).kv("o2", dst).kv("how", assign ? "assign" : "ctor");
+      if (r != "ok") e.kv("raised", r);
+      tracer().emit(e);
+    };
+    static const size_t lens[] = {1, 1, 1, 2, 3, 5};
+
+    create(0);
+    if (rng.chance(1, 3))
+    { // the target was used, the source was used and then changed, target = source, target samples
+      create(1);
+      if (rng.coin()) get(1, rng.coin());
+      else sample(1, lens[rng.below(6)]);
+      if (rng.chance(2, 3))
+      {
+        if (rng.coin()) get(0, rng.coin());
+        else sample(0, lens[rng.below(6)]);
+      }
+      mutate(0, rng.coin());
+      copyTo(0, 1);
+      sample(1, 5);
+    }
+    long ops = 4 + static_cast<long>(rng.below(8));
+    for (long k = 0; k < ops; ++k)
+    {
+      size_t what = rng.below(12);
+      if (k == 0 && rng.coin()) what = 11; // a sample as the very first call
+      int o = (slot[1].obj && rng.coin()) ? 1 : 0;
+      if (what < 3) mutate(o, false);
+      else if (what < 5) get(o, what == 3);
+      else if (what < 7) copyTo(o, 1 - o);
+      else sample(o, lens[rng.below(6)]);
     }
   }
   return sc;
